@@ -93,6 +93,12 @@ class ParserFactory:
         # error max right now, it's best to show the lexing one.
         for err_msg, lineno in self.lexer.errors[::-1]:
             self.errors.insert(0, (err_msg, lineno, self.path))
+        if parsed_data is None:
+            # The parser could not recover from a syntax error.
+            if not self.errors:
+                self.errors.append(
+                    ('Invalid syntax.', self.lexer.lex.lineno, self.path))
+            parsed_data = []
         parsed_data.extend(self.anony_defs)
         self.exhausted = True
         return parsed_data
